@@ -366,6 +366,17 @@ def run_client_case(case, forced, mode):
     for name in ("set", "get", "get_many", "delete", "quit", "gets", "add", "incr"):
         setattr(Guarded, name, guard(name))
 
+    import pymemcache.pool as poolmod
+    saved_threading = poolmod.threading
+    poolmod.threading = S.ThreadingShim(sch, saved_threading)      # a pool that does not get / ignores lock_generator is still schedulable
+    try:
+        return _run_client_case(case, forced, mode, sch, net, srv, active, viol_extra, close_marks, Guarded, max_size, via_hash, programs)
+    finally:
+        poolmod.threading = saved_threading
+
+
+def _run_client_case(case, forced, mode, sch, net, srv, active, viol_extra, close_marks, Guarded, max_size, via_hash, programs):
+    import pymemcache.client.base as base
     if via_hash is None:
         pc = base.PooledClient(("mc1", 11211), socket_module=net, max_pool_size=max_size, default_noreply=False,
                                lock_generator=lambda: S.SchedLock(sch, "pool"))
@@ -383,6 +394,10 @@ def run_client_case(case, forced, mode):
             sch2 = S.Sched(1, {})
             return sch2, [("pooling-requested-but-the-per-server-client-has-no-pool",
                            "HashClient(use_pooling=%r) built a %s for its server" % (via_hash, type(pc).__name__))], _NoMon(), True
+    if via_hash is not None and via_hash is not True:
+        # upstream forwards max_pool_size / lock_generator only for the literal True; for another truthy flag the pool is
+        # unbounded and takes its lock from the threading module (shadowed below), so the case's bound does not apply
+        max_size = None
     mon = Monitor(sch, pc.client_pool, max_size)
     net.on_call = lambda typ, sock: (sch.point(("sock", typ)) if (sch.active and sch.me() is not None) else None)
     fail_state = {"armed": set()}
@@ -686,8 +701,8 @@ def cases(tier):
     # the PooledClient a HashClient(use_pooling=<truthy>) builds for its server, driven through the HashClient
     for ms, flag in ((1, True), (2, 1), (None, 1)):
         # (no failing operations here: a failure makes the HashClient skip the server for a while, which is C13's subject)
-        for a, b in (("set", "set"), ("get", "set"), ("get", "get")):
-            out.append((("client", ((a,), (b,)), ms, flag), 0))
+        for a, b in (("set", "set"), ("get", "set"), ("get", "get"), ("illegal_key", "get"), ("get", "close")):
+            out.append((("client", ((a,), (b,)), ms, flag), 1))
     # (ii) PooledClient
     for ms in (1, 2, None):
         for a in CLIENT_OPS:
@@ -727,7 +742,7 @@ def shard(tier, seed, idx, n):
         budget = 700 if all(len(p) == 1 for p in case[1]) else 450
         if len(entry) > 2:
             budget = entry[2]
-        elif tier == "thorough" and not (case[0] == "client" and len(case) > 3):
+        elif tier == "thorough":
             P = P + 1
             single_ops = all(len(p) == 1 for p in case[1])
             # two single-operation threads: exhaustive within the bound; longer programs: a large shuffled-DFS budget
